@@ -1,7 +1,16 @@
-//! C13 — (stub, under construction)
+//! C13 — user coordinates normalise per fvar and avar.
+//!
+//! The harness writes fvar/avar tables from an abstract description (axis triples, segment maps),
+//! asks allsorts to normalise user coordinates and compares with a model in exact rational
+//! arithmetic (i128 numerators over a common denominator).
 
 use super::Prop;
 use crate::rt::*;
+use crate::sfnt::W;
+use allsorts::binary::read::ReadScope;
+use allsorts::tables::variable_fonts::avar::AvarTable;
+use allsorts::tables::variable_fonts::fvar::FvarTable;
+use allsorts::tables::{F2Dot14, Fixed};
 
 pub struct C13 {}
 
@@ -11,8 +20,467 @@ impl C13 {
     }
 }
 
+#[derive(Clone, Debug)]
+struct Axis {
+    min: i32,
+    def: i32,
+    max: i32,
+}
+
+/// avar segment map: (from, to) pairs in raw F2Dot14, valid per spec.
+type SegMap = Vec<(i16, i16)>;
+
+fn write_fvar(axes: &[Axis]) -> Vec<u8> {
+    let mut w = W::new();
+    w.u16(1).u16(0).u16(16).u16(2).u16(axes.len() as u16).u16(20).u16(0).u16(4 * axes.len() as u16 + 4);
+    for (i, a) in axes.iter().enumerate() {
+        w.u32(u32::from_be_bytes([b'a', b'x', b'0' + (i / 10) as u8, b'0' + (i % 10) as u8]));
+        w.i32(a.min).i32(a.def).i32(a.max).u16(0).u16(256 + i as u16);
+    }
+    w.b
+}
+
+fn write_avar(maps: &[SegMap]) -> Vec<u8> {
+    let mut w = W::new();
+    w.u16(1).u16(0).u16(0).u16(maps.len() as u16);
+    for m in maps {
+        w.u16(m.len() as u16);
+        for &(f, t) in m {
+            w.i16(f).i16(t);
+        }
+    }
+    w.b
+}
+
+/// A rational number num/den with den > 0.
+#[derive(Copy, Clone, Debug)]
+struct Q {
+    n: i128,
+    d: i128,
+}
+impl Q {
+    fn new(n: i128, d: i128) -> Q {
+        if d < 0 {
+            Q { n: -n, d: -d }
+        } else {
+            Q { n, d }
+        }
+    }
+    fn lt(self, o: Q) -> bool {
+        self.n * o.d < o.n * self.d
+    }
+    fn le(self, o: Q) -> bool {
+        self.n * o.d <= o.n * self.d
+    }
+    fn to_f64(self) -> f64 {
+        self.n as f64 / self.d as f64
+    }
+}
+
+/// Exact default normalisation: result in units of 1 (as a rational).
+fn model_default(a: &Axis, user: i32) -> Q {
+    let v = (user as i128).clamp(a.min as i128, a.max as i128);
+    let (d, mn, mx) = (a.def as i128, a.min as i128, a.max as i128);
+    if v < d {
+        // min < def here because v >= min
+        Q::new(-(d - v), d - mn)
+    } else if v > d {
+        Q::new(v - d, mx - d)
+    } else {
+        Q::new(0, 1)
+    }
+}
+
+/// Exact avar mapping of x (in units of 1) through the segment map (raw F2Dot14 knots).
+/// Returns (mapped value, slope of the segment in use).
+fn model_avar(map: &SegMap, x: Q) -> (Q, f64) {
+    if map.len() < 2 {
+        return (x, 1.0);
+    }
+    let k = |v: i16| Q::new(v as i128, 16384);
+    // find segment with from[i] <= x <= from[i+1]; at a knot the value is that knot's `to`
+    for w in map.windows(2) {
+        let (f0, t0) = w[0];
+        let (f1, t1) = w[1];
+        if k(f0).le(x) && x.le(k(f1)) {
+            if f1 == f0 {
+                return (k(t0), 0.0);
+            }
+            // t0 + (x - f0) * (t1 - t0) / (f1 - f0), all over 16384
+            // x = n/d ; (x - f0/16384) = (n*16384 - f0*d) / (d*16384)
+            let num = x.n * 16384 - (f0 as i128) * x.d; // over d*16384
+            let dt = (t1 as i128) - (t0 as i128);
+            let df = (f1 as i128) - (f0 as i128);
+            // result = t0/16384 + num*dt / (d*16384*df)
+            let den = x.d * 16384 * df;
+            let res = Q::new((t0 as i128) * x.d * df + num * dt, den);
+            return (res, (dt as f64 / df as f64).abs());
+        }
+    }
+    (x, 1.0)
+}
+
+fn clamp_unit(x: Q) -> Q {
+    if x.lt(Q::new(-1, 1)) {
+        Q::new(-1, 1)
+    } else if Q::new(1, 1).lt(x) {
+        Q::new(1, 1)
+    } else {
+        x
+    }
+}
+
+fn gen_axis(rng: &mut Rng) -> Axis {
+    let pick = |rng: &mut Rng| -> i32 {
+        match rng.below(8) {
+            0 => 0,
+            1 => i32::MIN,
+            2 => i32::MAX,
+            3 => (rng.range(-1000, 1000) as i32) << 16,
+            4 => rng.range(-70000, 70000) as i32,
+            5 => (rng.range(1, 1000) as i32) << 16,
+            _ => rng.u32() as i32,
+        }
+    };
+    let mut v = [pick(rng), pick(rng), pick(rng)];
+    v.sort();
+    match rng.below(8) {
+        0 => Axis { min: v[0], def: v[0], max: v[2] },
+        1 => Axis { min: v[0], def: v[2], max: v[2] },
+        2 => Axis { min: v[1], def: v[1], max: v[1] },
+        3 => Axis { min: 100 << 16, def: 400 << 16, max: 900 << 16 },
+        _ => Axis { min: v[0], def: v[1], max: v[2] },
+    }
+}
+
+fn gen_segmap(rng: &mut Rng) -> SegMap {
+    // valid map: -1 -> -1, 0 -> 0, 1 -> 1, from-coordinates strictly increasing, to non-decreasing
+    let n_neg = rng.below(5);
+    let n_pos = rng.below(5);
+    let mut froms: Vec<i16> = vec![-16384, 0, 16384];
+    for _ in 0..n_neg {
+        froms.push(-(1 + rng.below(16383) as i16));
+    }
+    for _ in 0..n_pos {
+        froms.push(1 + rng.below(16383) as i16);
+    }
+    froms.sort();
+    froms.dedup();
+    let mut tos: Vec<i16> = froms
+        .iter()
+        .map(|&f| match f {
+            -16384 | 0 | 16384 => f,
+            f if f < 0 => -(rng.below(16385) as i16),
+            _ => rng.below(16385) as i16,
+        })
+        .collect();
+    // make `to` non-decreasing while keeping the three fixed points
+    let zero_idx = froms.iter().position(|&f| f == 0).unwrap();
+    tos[..zero_idx].sort();
+    tos[zero_idx + 1..].sort();
+    for i in 0..tos.len() {
+        if froms[i] == -16384 {
+            tos[i] = -16384;
+        }
+        if froms[i] == 16384 {
+            tos[i] = 16384;
+        }
+    }
+    // sorting may have displaced the fixed points' partners; re-establish monotonicity
+    for i in 1..tos.len() {
+        if tos[i] < tos[i - 1] && froms[i] != 0 && froms[i] != 16384 {
+            tos[i] = tos[i - 1];
+        }
+    }
+    froms.into_iter().zip(tos).collect()
+}
+
+fn user_values(rng: &mut Rng, a: &Axis, map: Option<&SegMap>) -> Vec<i32> {
+    let mut v = vec![a.min, a.def, a.max];
+    for &b in &[a.min, a.def, a.max] {
+        v.push(b.wrapping_add(1));
+        v.push(b.wrapping_sub(1));
+    }
+    v.push(i32::MIN);
+    v.push(i32::MAX);
+    v.push(0);
+    // user values that land on / next to avar knots
+    if let Some(m) = map {
+        for &(f, _) in m {
+            let x = f as i128;
+            let u = if x < 0 {
+                a.def as i128 + x * (a.def as i128 - a.min as i128) / 16384
+            } else {
+                a.def as i128 + x * (a.max as i128 - a.def as i128) / 16384
+            };
+            for d in [-1i128, 0, 1] {
+                let w = u + d;
+                if w >= i32::MIN as i128 && w <= i32::MAX as i128 {
+                    v.push(w as i32);
+                }
+            }
+        }
+    }
+    for _ in 0..6 {
+        if a.max > a.min {
+            v.push(rng.range(a.min as i64, a.max as i64) as i32);
+        }
+        v.push(rng.u32() as i32);
+    }
+    v
+}
+
+impl C13 {
+    fn check_axis(&self, cx: &mut Ctx, rng: &mut Rng, axes: &[Axis], maps: Option<&[SegMap]>, k: usize) {
+        let fvar_bytes = write_fvar(axes);
+        let avar_bytes = maps.map(write_avar);
+        let fvar = match ReadScope::new(&fvar_bytes).read::<FvarTable<'_>>() {
+            Ok(f) => f,
+            Err(e) => {
+                cx.violation("fvar-rejected", "fvar-rejected", J::s(format!("{:?} axes {:?}", e, axes)));
+                return;
+            }
+        };
+        let avar = match &avar_bytes {
+            Some(b) => match ReadScope::new(b).read::<AvarTable<'_>>() {
+                Ok(a) => Some(a),
+                Err(e) => {
+                    cx.violation("avar-rejected", "avar-rejected", J::s(format!("{:?} maps {:?}", e, maps)));
+                    return;
+                }
+            },
+            None => None,
+        };
+        let a = &axes[k];
+        let map = maps.map(|m| &m[k]);
+        let degenerate_neg = a.def == a.min;
+        let degenerate_pos = a.def == a.max;
+        let mut users = user_values(rng, a, map);
+        let sweep_monotone = rng.chance(1, 4);
+        if sweep_monotone {
+            users.clear();
+            let span = a.max as i128 - a.min as i128;
+            for i in 0..=256i128 {
+                users.push((a.min as i128 + span * i / 256) as i32);
+            }
+        }
+        let mut prev: Option<(i32, i16)> = None;
+        let mut sorted_users = users.clone();
+        sorted_users.sort();
+        let users = if sweep_monotone { sorted_users } else { users };
+        for &u in &users {
+            let tuple: Vec<Fixed> = (0..axes.len())
+                .map(|i| Fixed::from_raw(if i == k { u } else { axes[i].def }))
+                .collect();
+            let got = match fvar.normalize(tuple.iter().copied(), avar.as_ref()) {
+                Ok(t) => t,
+                Err(e) => {
+                    cx.violation(
+                        "normalize-error",
+                        "normalize-error",
+                        J::s(format!("{:?} for axes {:?} maps {:?} user {}", e, axes, maps, u)),
+                    );
+                    return;
+                }
+            };
+            let got_raw: Vec<i16> = (0..axes.len()).map(|i| got.get(i).map(|v| v.raw_value()).unwrap_or(i16::MIN)).collect();
+            // other axes sit at their default: must be exactly 0
+            for (i, &g) in got_raw.iter().enumerate() {
+                if i != k && g != 0 {
+                    cx.violation("default-not-zero", "default-not-zero", J::s(format!("axis {} at default gave {} ({:?})", i, g, axes[i])));
+                }
+            }
+            let g = got_raw[k];
+            let x0 = model_default(a, u);
+            let (x1, slope) = match map {
+                Some(m) => {
+                    let (y, s) = model_avar(m, clamp_unit(x0));
+                    (clamp_unit(y), s)
+                }
+                None => (clamp_unit(x0), 1.0),
+            };
+            let exact_units = x1.to_f64() * 16384.0;
+            let tol = 1.0f64.max(slope) + 1e-6;
+            let err = (g as f64 - exact_units).abs();
+            if err > tol {
+                let sig = if map.is_some() { "avar-accuracy" } else { "default-accuracy" };
+                cx.violation(
+                    "accuracy",
+                    sig,
+                    J::obj(vec![
+                        ("axis", J::s(format!("{:?}", a))),
+                        ("map", J::s(format!("{:?}", map))),
+                        ("user_raw", J::I(u as i64)),
+                        ("observed_f2dot14", J::I(g as i64)),
+                        ("exact_f2dot14_units", J::F(exact_units)),
+                        ("slope", J::F(slope)),
+                    ]),
+                );
+            }
+            // exact fixed points
+            let exp_exact = if u == a.def {
+                Some(0i16)
+            } else if u == a.min && !degenerate_neg {
+                Some(-16384)
+            } else if u == a.max && !degenerate_pos {
+                Some(16384)
+            } else {
+                None
+            };
+            if let Some(e) = exp_exact {
+                if g != e {
+                    cx.violation(
+                        "fixed-point",
+                        "min-default-max-not-exact",
+                        J::s(format!("axis {:?} map {:?} user {} gave {} expected {}", a, map, u, g, e)),
+                    );
+                }
+                cx.class("fixed-point-checked");
+            }
+            if g < -16384 || g > 16384 {
+                cx.violation("range", "outside-unit-range", J::s(format!("axis {:?} user {} gave {}", a, u, g)));
+            }
+            if sweep_monotone {
+                if let Some((pu, pg)) = prev {
+                    if g < pg {
+                        cx.violation(
+                            "monotone",
+                            "not-monotone",
+                            J::s(format!("axis {:?} map {:?}: user {} -> {} but user {} -> {}", a, map, pu, pg, u, g)),
+                        );
+                    }
+                }
+                prev = Some((u, g));
+            }
+            cx.class(if map.is_some() { "value:avar" } else { "value:default" });
+            if slope > 1.0 {
+                cx.class("steep-segment");
+            }
+        }
+        if sweep_monotone {
+            cx.class("monotone-sweep");
+        }
+        // wrong-length tuples are rejected
+        for wrong in [axes.len() + 1, axes.len().saturating_sub(1)] {
+            if wrong == axes.len() {
+                continue;
+            }
+            let t: Vec<Fixed> = (0..wrong).map(|_| Fixed::from_raw(0)).collect();
+            if fvar.normalize(t.iter().copied(), avar.as_ref()).is_ok() {
+                cx.violation("wrong-length", "wrong-length-accepted", J::s(format!("{} values for {} axes", wrong, axes.len())));
+            }
+            cx.class("wrong-length-rejected");
+        }
+    }
+}
+
 impl Prop for C13 {
-    fn case(&mut self, cx: &mut Ctx, _rng: &mut Rng) {
-        cx.inconclusive("not-implemented");
+    fn exhaustive(&mut self, cx: &mut Ctx, shard: u64, of: u64) {
+        // all 65536 F2Dot14 raw values through the fixed-point conversions
+        let mut n = 0u64;
+        for r in i16::MIN..=i16::MAX {
+            if (r as i32 - i16::MIN as i32) as u64 % of != shard {
+                continue;
+            }
+            n += 1;
+            let f = F2Dot14::from_raw(r);
+            let fx = Fixed::from(f);
+            if fx.raw_value() != (r as i32) << 2 {
+                cx.violation("conversion", "f2dot14-to-fixed", J::s(format!("raw {} -> {}", r, fx.raw_value())));
+            }
+            let back = F2Dot14::from(fx);
+            if back.raw_value() != r {
+                cx.violation("conversion", "fixed-to-f2dot14", J::s(format!("raw {} -> {} -> {}", r, fx.raw_value(), back.raw_value())));
+            }
+            // the "+2 >> 2" rounding rule for the three 16.16 values around r<<2
+            for d in [-2i32, -1, 1, 2] {
+                let raw = ((r as i32) << 2) + d;
+                let exp = ((raw + 2) >> 2).clamp(i16::MIN as i32, i16::MAX as i32);
+                if ((raw + 2) >> 2) == exp {
+                    let got = F2Dot14::from(Fixed::from_raw(raw)).raw_value();
+                    if got as i32 != exp {
+                        cx.violation("conversion", "fixed-to-f2dot14-rounding", J::s(format!("16.16 raw {} -> {} expected {}", raw, got, exp)));
+                    }
+                }
+            }
+            let fl = f32::from(f);
+            if fl != r as f32 / 16384.0 {
+                cx.violation("conversion", "f2dot14-to-f32", J::s(format!("raw {} -> {}", r, fl)));
+            }
+            // f32 -> F2Dot14 round trip is exact (every 2.14 value is an f32)
+            if r != i16::MIN {
+                let rt = F2Dot14::from(fl).raw_value();
+                if rt != r {
+                    cx.violation("conversion", "f32-to-f2dot14", J::s(format!("raw {} -> {} -> {}", r, fl, rt)));
+                }
+            }
+            let fl2 = f32::from(fx);
+            if fl2 != fl {
+                cx.violation("conversion", "fixed-to-f32", J::s(format!("raw {} -> {} vs {}", r, fl2, fl)));
+            }
+            if Fixed::from(fl).raw_value() != fx.raw_value() {
+                cx.violation("conversion", "f32-to-fixed", J::s(format!("{} -> {} expected {}", fl, Fixed::from(fl).raw_value(), fx.raw_value())));
+            }
+        }
+        cx.class_n("exhaustive:f2dot14-values", n);
+        cx.evals += n;
+    }
+
+    fn case(&mut self, cx: &mut Ctx, rng: &mut Rng) {
+        if rng.chance(1, 16) {
+            // float -> 16.16 conversion used for user coordinates: round(value * 65536), half away from zero
+            for _ in 0..32 {
+                let int = rng.range(-2000, 2000) as f64;
+                let frac = match rng.below(4) {
+                    0 => 1.0 - (rng.below(8) as f64 + 1.0) / 1048576.0,
+                    1 => (rng.below(65536) as f64) / 65536.0,
+                    2 => (rng.below(65536) as f64 + 0.5) / 65536.0,
+                    _ => rng.u32() as f64 / 4294967296.0,
+                };
+                let v = if int < 0.0 { int - frac } else { int + frac };
+                let exp = (v.abs() * 65536.0).round() as i64 * if v < 0.0 { -1 } else { 1 };
+                let got = Fixed::from(v).raw_value() as i64;
+                if got != exp {
+                    let sig = if (v.abs().fract() * 65536.0).round() >= 65536.0 { "f64-to-fixed:fraction-rounds-to-one" } else { "f64-to-fixed" };
+                    cx.violation("conversion", sig, J::s(format!("Fixed::from({:?}) raw {} expected {}", v, got, exp)));
+                }
+                let vf = v as f32;
+                let expf = ((vf.abs() as f64) * 65536.0).round() as i64 * if vf < 0.0 { -1 } else { 1 };
+                let gotf = Fixed::from(vf).raw_value() as i64;
+                if gotf != expf {
+                    let sig = if ((vf.abs() as f64).fract() * 65536.0).round() >= 65536.0 { "f32-to-fixed:fraction-rounds-to-one" } else { "f32-to-fixed" };
+                    cx.violation("conversion", sig, J::s(format!("Fixed::from({:?}f32) raw {} expected {}", vf, gotf, expf)));
+                }
+            }
+            cx.class("float-to-fixed");
+            cx.nontrivial(rng.u64());
+            return;
+        }
+        let n_axes = 1 + rng.below(3);
+        let axes: Vec<Axis> = (0..n_axes).map(|_| gen_axis(rng)).collect();
+        let with_avar = rng.chance(2, 3);
+        let maps: Option<Vec<SegMap>> = if with_avar {
+            Some((0..n_axes).map(|_| if rng.chance(1, 6) { vec![(-16384, -16384), (0, 0), (16384, 16384)] } else { gen_segmap(rng) }).collect())
+        } else {
+            None
+        };
+        let k = rng.below(n_axes);
+        let a = &axes[k];
+        if a.min == a.def {
+            cx.class("degenerate:min=default");
+        }
+        if a.max == a.def {
+            cx.class("degenerate:default=max");
+        }
+        if cx.want_sample() {
+            cx.sample(J::obj(vec![
+                ("axes", J::s(format!("{:?}", axes))),
+                ("avar", J::s(format!("{:?}", maps))),
+                ("axis_under_test", J::U(k as u64)),
+            ]));
+        }
+        let h = hash_str(&format!("{:?}{:?}{}", axes, maps, k));
+        self.check_axis(cx, rng, &axes, maps.as_deref(), k);
+        cx.nontrivial(h);
     }
 }
